@@ -13,7 +13,8 @@
 From Coq Require Import ZArith List Bool Sorted.
 From FT Require Import Model.Base Model.Obs Model.C04Coiter Model.C04Check
                        Proofs.ObsP Proofs.C04CoiterP Proofs.C04LexP Proofs.C04StreamP
-                       Proofs.C04CheckP Proofs.C04LfP.
+                       Proofs.C04CheckP Proofs.C04LfP Proofs.C04PrefixP Proofs.C04AndP Proofs.C04NaryP
+                       Proofs.C04FullP.
 Import ListNotations.
 Open Scope Z_scope.
 
@@ -129,27 +130,78 @@ Theorem C04_absent : forall d es j c og,
 Proof. exact iter_occ_nonempty. Qed.
 Print Assumptions C04_absent.
 
-(* The faithful model's observation meets the property oracle.
+(* a fiber with shorter tuple coordinates matches on the common prefix.  The two ANY-padded
+   loops of __and__ (a is projected and not advanced on a match / b is): the result is the
+   longer operand's elements whose prefix is in the shorter operand, with the shorter
+   operand's payload at the prefix *)
+Theorem C04_prefix_a_shorter : forall P Q la n (sa : list (coord * P)) (b : list (coord * Q)),
+  lsorted sa -> alllen la sa -> lsorted b -> alllen (la + n) b ->
+  and_merge_l (project_pad n sa) b = flat_map (pmatch_l la sa) b.
+Proof. exact (fun P Q la n sa b => @and_merge_l_spec P Q la n sa b). Qed.
+Print Assumptions C04_prefix_a_shorter.
 
-   Full statement (checked on every generated case at run time — verdict bit 4 — but proved
-   only in part):
-     forall c, wf_case c = true -> c04_region c = 0 -> c04_holds c (c04_model c) = true.
-   Proved: the part [c04_holds_core] of the oracle = the truth tables of a & b, b & a, a | b,
-   a ^ b, a - b for operands of one arity (compressed or uncompressed, except a - b with an
-   uncompressed a) and the purity clauses.  Missing: the intersection / union clauses of holds_nary
-   (k operands) and holds_mixed (prefix matching on the ANY-padded path);
-   a - b for an uncompressed a outside region 1.  Their intended statements:
-     C04_nary_and : llookup c (intersection_n (map stream ops)) = Some (map NLeaf os) iff every
-                    operand is present at c and os are their origins there;
-     C04_nary_or  : likewise for union_n with the mask bits of the operands present;
-     (leader-follower is proved separately below: C04_leader_follower, C04_model_meets_spec_lf)
-     C04_prefix   : and_op a b for arity a < arity b delivers b's coordinate c iff
-                    firstn (arity a) c is in a, with a's payload at the prefix. *)
-Theorem C04_model_meets_spec_partial : forall c,
-  wf_case c = true -> o_U (op_a c) = false ->
-  c04_holds_core c (model c04_checker c) = true.
-Proof. exact c04_model_holds_core. Qed.
-Print Assumptions C04_model_meets_spec_partial.
+Theorem C04_prefix_b_shorter : forall P Q lb n (a : list (coord * P)) (sb : list (coord * Q)),
+  lsorted a -> alllen (lb + n) a -> lsorted sb -> alllen lb sb ->
+  and_merge_r a (project_pad n sb) = flat_map (pmatch_r lb sb) a.
+Proof. exact (fun P Q lb n a sb => @and_merge_r_spec P Q lb n a sb). Qed.
+Print Assumptions C04_prefix_b_shorter.
+
+(* a & b as Fiber.__and__ dispatches it, for streams of arity na and nb (any two arities,
+   either stream possibly empty): strictly ascending; a coordinate c of the longer arity is
+   delivered iff its prefix of length na is in a and its prefix of length nb is in b, with
+   the payloads a and b hold there (na = nb: c itself, as in C04_and) *)
+Theorem C04_prefix : forall P Q na nb (sa : list (coord * P)) (sb : list (coord * Q)),
+  lsorted sa -> lsorted sb -> alllen na sa -> alllen nb sb ->
+  lsorted (and_op sa sb)
+  /\ forall c, llookup c (and_op sa sb)
+               = match llookup (firstn na c) sa, llookup (firstn nb c) sb with
+                 | Some p, Some q =>
+                   if Nat.eqb (length c) (Nat.max na nb) then Some (p, q) else None
+                 | _, _ => None
+                 end.
+Proof. exact (fun P Q => @and_op_spec P Q). Qed.
+Print Assumptions C04_prefix.
+
+(* intersection(a0, .., ak) for every k >= 0, operands of one arity n: strictly ascending; c is
+   delivered iff every operand holds it, and the payload is the flat tuple of the operands'
+   own payloads ([lookups c ss] = the payloads all of ss hold at c, if all do) *)
+Theorem C04_nary_and : forall n (ss : list (list (coord * origin))),
+  Forall lsorted ss -> Forall (alllen n) ss ->
+  lsorted (intersection_n ss)
+  /\ forall c, llookup c (intersection_n ss)
+               = match ss with
+                 | [] => None
+                 | _ => match lookups c ss with Some os => Some (map NLeaf os) | None => None end
+                 end.
+Proof. exact intersection_n_spec. Qed.
+Print Assumptions C04_nary_and.
+
+(* union(a0, .., ak) for every k >= 1 (operand j = its stream and its default value d_j):
+   strictly ascending; c is delivered iff some operand holds it; the unrolling loop succeeds
+   (inner Some) and yields the mask whose bit j says whether operand j holds c — exactly the
+   operands present — and the flat tuple of each operand's own payload or a new default *)
+Theorem C04_nary_or : forall s0 d0 rest,
+  rest <> [] -> Forall (fun sd => lsorted (fst sd)) ((s0, d0) :: rest) ->
+  let all := (s0, d0) :: rest in
+  lsorted (union_n all)
+  /\ forall c, llookup c (union_n all)
+               = if existsb (fun sd => isS (llookup c (fst sd))) all
+                 then Some (Some (mask_bits (map (fun sd => isS (llookup c (fst sd))) all) 1,
+                                  map (fun sd => leaf_of (llookup c (fst sd), snd sd)) all))
+                 else None.
+Proof. exact union_n_spec. Qed.
+Print Assumptions C04_nary_or.
+
+(* The faithful model's observation meets the whole property oracle (truth tables of a & b,
+   b & a incl. prefix matching, a | b, a ^ b, a - b, intersection, union, leader-follower;
+   fresh defaults; operands and rank lists unchanged) for every well-formed case outside the
+   known-finding region 1 (a - b with a declared uncompressed and a coordinate of a's active
+   range, not present in b, at which a stores nothing or a default: C04_sub_uncompressed_refuted) *)
+Theorem C04_model_meets_spec : forall c,
+  wf_case c = true -> region c04_checker c = 0 ->
+  holds c04_checker c (model c04_checker c) = true.
+Proof. exact c04_model_holds. Qed.
+Print Assumptions C04_model_meets_spec.
 
 (* leader-follower intersection (fresh followers): every coordinate the leader delivers, with
    the leader's payload and, per follower, the follower's stored payload at that coordinate
@@ -188,7 +240,7 @@ Print Assumptions C04_sub_uncompressed_refuted.
 
 (* non-vacuity: well-formed cases with explicit defaults, an empty sub-fiber, an empty operand,
    an uncompressed operand, three operands, tuple coordinates of different arity; the whole
-   oracle (including the parts not proved in general) holds of the model on them *)
+   oracle holds of the model on them *)
 Definition c04_ex1 : c04_case :=
   {| k_ops := [ {| o_es := [([0], Leaf 0); ([1], Leaf 5); ([3], Leaf 7)]; o_d := 0; o_U := false;
                    o_lo := 0; o_hi := 0; o_owned := false; o_depth := 1 |};
